@@ -37,6 +37,8 @@ RULE = ("per instant t: rt (format then parse the produced text) for 3 formats x
         "edge-offset stream: instants of the first/last 14 h of the range, around the epoch and year boundaries, each written with offsets of both "
         "signs up to 14 h (thorough 24 h) so that the text's wall-clock fields are before 1970 / in the neighbouring year; "
         "nanos-limit stream: acc / millis / parsed texts with fractional seconds on both sides of 2554-07-21T23:34:33 (64-bit nanosecond limit) and at 9999-12-31, ms in {0,1,551,552,709,710,999,random}; "
+        "append stream: fmtb = one to three timestamps formatted back to back into ONE output buffer that already holds a random prefix of 0..40 bytes, "
+        "capacity exact / one short / just above / far too small; P: prefix preserved, len = prefix + text, refusal leaves the buffer unchanged, every appended range parses back; "
         "fractions, zone-designator case variants; W stream: mutated / out-of-range / over-long texts, 2-digit years, short buffers; "
         "non-trivial = case contains at least one successful parse of a non-midnight instant or a non-zero offset")
 
@@ -279,6 +281,46 @@ def oracle(case, lines):
                 parse_result(produced, pf, op, want=(secs - secs % 86400 if short else secs) if produced == text.encode() else None)
             else:
                 parse_result(b"\xff", pf, op)
+        elif t[0] == "fmtb":
+            cap = int(t[1])
+            data = bytes.fromhex(t[2]) if t[2] != "-" else b""
+            steps = [(int(t[k]), t[k + 1], t[k + 2] == "short") for k in range(3, len(t), 3)]
+            known = not w and all(f in FMTS + ["auto"] and (f == "auto" or 0 <= secs <= MAXT) for secs, f, _ in steps)
+            texts, impl_ok = [], 0
+            for i, (secs, f, short) in enumerate(steps):
+                l = nxt()
+                if l is None:
+                    errs.append(f"{op}: missing output"); break
+                impl_ok += 1 if " fmtb OK " in l else 0
+                if not known:
+                    continue
+                if i > 0 and len(data) < cap:
+                    data += b"/"
+                if f == "auto":
+                    want = f"P fmtb AWS_ERROR_INVALID_ARGUMENT len={len(data)} data={hx(data)}"
+                else:
+                    text = py_fmt(secs, f, short).encode()
+                    if len(text) + 1 <= cap - len(data):
+                        before = len(data)
+                        data += text
+                        texts.append(text)
+                        want = f"P fmtb OK len={len(data)} data={hx(data)}"
+                        if l != want:
+                            errs.append(f"{op}: call {i + 1} ({secs} {f} {'short' if short else 'full'}) on a buffer holding {before} bytes must append "
+                                        f"{text!r}: expected `{want}` but got `{l}`")
+                        continue
+                    want = f"P fmtb AWS_ERROR_SHORT_BUFFER len={len(data)} data={hx(data)}"
+                if l != want:
+                    errs.append(f"{op}: call {i + 1} must be refused and leave the buffer unchanged: expected `{want}` but got `{l}`")
+            if known and not errs:
+                for text in texts:
+                    parse_result(text, "auto", op + f" [appended range {text!r}]")
+            else:
+                for _ in range(impl_ok):
+                    if li < len(lines) and " fmtb bad-range " in lines[li]:
+                        li += 1
+                    else:
+                        skip_parse_lines()
         elif t[0] in ("acc", "millis"):
             l, v = nxt(), nxt()
             if l is None or v is None:
@@ -444,6 +486,52 @@ def nanos_ops(rng, tier):
         ops.append(f"parse {hx(body(t, 'basic') + frac + rng.choice(['Z', 'z', '+00:00', '-0000']))} {rng.choice(['iso8601_basic', 'auto'])}")
         ops.append(f"parse {hx(body(t, 'rfc') + rng.choice(['GMT', 'UT', 'Z', '+0000']))} {rng.choice(['rfc822', 'auto'])}")
         ops.append(f"rt {t} iso8601 full auto")
+    return ops
+
+
+def append_ops(rng, tier, n):
+    """formatting into an output buffer that already holds data: random prefix of 0..40 bytes, capacity below / at /
+    just above what is needed (the refusal must leave the buffer unchanged), and two or three timestamps formatted
+    back to back into one buffer with a `/` between them; every appended range is parsed back"""
+    spec = special_instants()
+    ops = []
+    words = [b"", b"not-after=", b"Date: ", b"x-amz-date:", b"valid=", b"[", b"\x00", b"2020-01-01T00:00:00Z/"]
+    for _ in range(n):
+        r = rng.random()
+        if r < 0.4:
+            pre = rng.choice(words)
+        elif r < 0.8:
+            pre = bytes(rng.choice(b"abcxyzTZ0189-:=/ ,+") for _ in range(rng.randrange(41)))
+        else:
+            pre = bytes(rng.randrange(256) for _ in range(rng.randrange(41)))
+        k = rng.choice([1, 1, 1, 2, 2, 3])
+        steps = []
+        for _ in range(k):
+            t = rng.choice(spec) if rng.random() < 0.3 else rng.randint(0, MAXT)
+            steps.append((t, rng.choice(FMTS), rng.choice(["full", "short"])))
+        lens = [len(py_fmt(t, f, sh == "short")) for t, f, sh in steps]
+        exact = len(pre) + sum(lens) + (k - 1) + 1          # everything fits, the last NUL included, not a byte more
+        choice = rng.random()
+        if choice < 0.25:
+            cap = exact
+        elif choice < 0.45:
+            cap = exact - 1                                  # the last call is one byte short: refused, buffer unchanged
+        elif choice < 0.6:
+            cap = exact + rng.choice([1, 2, 3])
+        elif choice < 0.7:
+            cap = len(pre) + lens[0]                          # the first text alone would fit, its terminator does not
+        elif choice < 0.78:
+            cap = len(pre) + rng.randrange(lens[0] + 1)       # far too small (down to a full buffer)
+        elif choice < 0.85 and k > 1:
+            cap = len(pre) + lens[0] + 1                      # first fits exactly, no room for the separator
+        else:
+            cap = exact + rng.randrange(4, 80)
+        ops.append(f"fmtb {max(cap, len(pre))} {hx(pre)} " + " ".join(f"{t} {f} {sh}" for t, f, sh in steps))
+    ops.append("fmtb 64 - 0 iso8601 full 0 auto full 86400 iso8601_basic short")
+    ops.append(f"fmtb 41 {hx(b'not-after=')} 0 iso8601 full")
+    ops.append(f"fmtb 30 {hx(b'not-after=')} 0 iso8601 full")
+    ops.append(f"fmtb 31 {hx(b'not-after=')} 0 iso8601 full")
+    ops.append(f"w fmtb 80 {hx(b'pre:')} -1 iso8601 full {MAXT + 1} iso8601 full 0 rfc822 short")
     return ops
 
 
@@ -627,6 +715,7 @@ def gen_cases(rng, tier):
     cases += chunk(offset_ops(rng, tier), 50, {"stream": "offset"})
     cases += chunk(edge_offset_ops(rng, tier), 50, {"stream": "edge-offset"})
     cases += chunk(nanos_ops(rng, tier), 50, {"stream": "nanos-limit"})
+    cases += chunk(append_ops(rng, tier, 3000 if tier == "quick" else 60000), 40, {"stream": "append"})
     cases += chunk(designator_ops(rng, 20 if tier == "quick" else 200), 50, {"stream": "designator"})
     cases += chunk(fraction_ops(rng, 3000 if tier == "quick" else 30000), 50, {"stream": "fraction"})
     cases += chunk(w_ops(rng, 12000 if tier == "quick" else 200000), 50, {"stream": "w"})
@@ -666,6 +755,7 @@ def gen_cases_tz(rng, tier, tz):
     cases += chunk(zops, 50, tags("tz-zero-offset"))
     cases += chunk(offset_ops(rng, "quick"), 50, tags("tz-offset"))
     cases += chunk(edge_offset_ops(rng, "quick", n_inst=2), 50, tags("tz-edge-offset"))
+    cases += chunk(append_ops(rng, "quick", 300), 40, tags("tz-append"))
     cases += chunk(designator_ops(rng, 2), 50, tags("tz-designator"))
     return cases
 
@@ -716,11 +806,11 @@ def replay(ctx, obj):
 
 
 def nontrivial(case):
-    return any(o.startswith(("rt", "parse", "acc")) for o in case.ops)
+    return any(o.startswith(("rt", "parse", "acc", "fmtb")) for o in case.ops)
 
 
 def distribution(cases, c_out):
-    d = {"rt": 0, "parse": 0, "fmt": 0, "acc": 0, "millis": 0, "w_ops": 0, "parse_ok": 0, "parse_refused": 0,
+    d = {"rt": 0, "parse": 0, "fmt": 0, "fmtb": 0, "acc": 0, "millis": 0, "w_ops": 0, "parse_ok": 0, "parse_refused": 0,
          "streams": {}}
     for i, c in enumerate(cases):
         s = c.tags.get("stream", "probe")
@@ -749,6 +839,7 @@ MANIFEST = dict(
           "/repo on every run and tied to the closed forms by bridge theorems (c19_gen_*), on top of a calendar model: civilFromDays is the inverse, by bounded search, of the "
           "closed-form day count and agrees with an independent recursive calendar for every day; format-then-parse returns the same "
           "instant (or its midnight for date-only text) for every second of 1970-9999, every parseable format and both parse modes; "
+          "the formatters append to the output buffer (prefix preserved, len grows by the text, refusal leaves it unchanged); "
           "numeric offsets +-hh:mm / +-hhmm and Z/UT/UTC/GMT in any case are honoured; accessors equal the calendar's fields; "
           "as_millis is exact and as_nanos is exact or saturated at 2^64-1, never wrapped (the plain-add body found first is proved to wrap: c19_nanos_plain_add_wraps). The RFC 822 date-only text is proved NOT parseable (known finding F8). "
           "Tied to /repo by a correspondence run of the compiled model against date_time.c rebuilt from the working tree (TZ=UTC) on every "
